@@ -1,8 +1,8 @@
 #!/bin/bash
-# tools/regress_parallel.sh [jobs]  — every stored mutant against the current machinery, <jobs> at a time (default 3);
+# tools/regress_parallel.sh [jobs] [ids...]  — every stored mutant (of the listed properties; default all) against the current machinery, <jobs> at a time (default 3);
 # writes mutants/regression-all-mutants.log (sorted) and prints the MISSED lines.
 cd "$(dirname "$(readlink -f "$0")")/.." || exit 2
-jobs=${1:-3}
+jobs=${1:-3}; shift; only="$*"
 prop() { case "$1" in C01*) echo C01;; C06*) echo C06;; C14*) echo C14;; C15*) echo C15;; C16*) echo C16;; C18*) echo C18;; esac; }
 declare -A RP
 eval "$(grep '^declare -A RP=' tools/regress_mutants.sh)"
@@ -12,6 +12,7 @@ for f in mutants/hand/*.diff; do echo "$(prop $(basename $f)) $f"; done >> $list
 for f in mutants/C14/*.diff; do echo "C14 $f"; done >> $list
 for f in mutants/revfix/*.diff; do h=$(basename $f | cut -c1-7); echo "${RP[$h]} $f"; done >> $list
 out=mutants/regression-all-mutants.log
+if [ -n "$only" ]; then grep -E "^($(echo $only | tr ' ' '|')) " $list > $list.f; mv $list.f $list; out=mutants/regression-$(echo $only | tr -d ' ').log; fi
 xargs -P $jobs -L 1 tools/sensitivity.sh < $list 2>&1 | cut -c1-260 | sort > $out.tmp
 mv $out.tmp $out; rm -f $list
 eq=$(grep -v '^#' mutants/equivalent.txt | sed 's/^/ /; s/$/:/' )
